@@ -17,6 +17,7 @@ pub enum Expr {
     Add(Box<Expr>, Box<Expr>),
     /// bitwise AND (to keep data-dependent keys inside the hot range)
     And(Box<Expr>, Box<Expr>),
+    IsZero(Box<Expr>),
     Balance(Box<Expr>),
     SelfBalance,
     Coinbase,
@@ -60,6 +61,8 @@ pub enum Stmt {
     ExtCodeCopyMix(Expr),
     /// stop without returning data
     Stop,
+    /// execute the body only if the condition is non-zero
+    If(Expr, Vec<Stmt>),
 }
 
 pub fn imm(v: u64) -> Expr {
@@ -138,6 +141,10 @@ impl Asm {
                 self.expr(a);
                 self.expr(b);
                 self.op(0x16);
+            }
+            Expr::IsZero(a) => {
+                self.expr(a);
+                self.op(0x15);
             }
             Expr::Balance(a) => {
                 self.expr(a);
@@ -304,6 +311,18 @@ impl Asm {
             Stmt::Stop => {
                 self.op(0x00);
             }
+            Stmt::If(cond, body) => {
+                self.expr(cond);
+                self.op(0x15); // iszero -> skip the body
+                let at = self.push2_placeholder();
+                self.op(0x57);
+                for st in body {
+                    self.stmt(st);
+                }
+                let dest = self.code.len();
+                self.op(0x5b);
+                self.patch2(at, dest);
+            }
         }
     }
 }
@@ -347,7 +366,7 @@ fn expr_min_spec(e: &Expr) -> SpecId {
     match e {
         Expr::SelfBalance => SpecId::ISTANBUL,
         Expr::ExtCodeHash(a) => SpecId::PETERSBURG.max(expr_min_spec(a)),
-        Expr::Sload(a) | Expr::Balance(a) | Expr::ExtCodeSize(a) | Expr::BlockHash(a) => expr_min_spec(a),
+        Expr::Sload(a) | Expr::Balance(a) | Expr::ExtCodeSize(a) | Expr::BlockHash(a) | Expr::IsZero(a) => expr_min_spec(a),
         Expr::Add(a, b) | Expr::And(a, b) => expr_min_spec(a).max(expr_min_spec(b)),
         _ => SpecId::FRONTIER,
     }
@@ -377,6 +396,7 @@ pub fn stmt_min_spec(s: &Stmt) -> SpecId {
         }
         Stmt::Create { value, .. } => expr_min_spec(value),
         Stmt::Create2 { value, salt, .. } => SpecId::PETERSBURG.max(expr_min_spec(value)).max(expr_min_spec(salt)),
+        Stmt::If(e, body) => body.iter().map(stmt_min_spec).fold(expr_min_spec(e), |a, b| a.max(b)),
         Stmt::RevertIf(e) => SpecId::BYZANTIUM.max(expr_min_spec(e)),
         Stmt::ReturnIf(e) => expr_min_spec(e),
         Stmt::Revert => SpecId::BYZANTIUM,
